@@ -26,7 +26,9 @@ import os
 import random as _random
 import re
 import shutil
+import time
 import traceback
+from datetime import datetime, timedelta, timezone
 from pathlib import Path
 
 from harness import core, refcodec
@@ -107,7 +109,8 @@ def gen_case1(rng):
     sizes = gen_sizes(rng, ch['max_length'], len(paths))
     tree = [{'parts': p, 'size': s, 'kind': rng.choice(['data', 'data', 'zero', 'rep', 'same'])} for p, s in zip(paths, sizes)]
     return {'dir': 1, 'settings': settings, 'concurrent': rng.choice([1, 2, 5]), 'tree': tree, 'seed': rng.randint(0, 2 ** 31),
-            'second': rng.random() < 0.4, 'note': rng.choice([None, 'n', 'note é'])}
+            'second': rng.random() < 0.4, 'note': rng.choice([None, 'n', 'note é']),
+            'tz': [rng.choice(TIME_ZONES), rng.choice(TIME_ZONES)] if rng.random() < 0.4 else None}
 
 
 def read_block_size():
@@ -164,6 +167,8 @@ def gen_case2(rng):
             'legacy': rng.random() < 0.45, 'style': rng.choice(['compact', 'utf8', 'utf8', 'spaced', 'indented']),
             'mac_length': rng.choice([64, 64, 32, 16]), 'shuffle': rng.random() < 0.7, 'two': rng.random() < 0.3,
             'drop_empty_refs': rng.random() < 0.5, 'concurrent': rng.choice([1, 2, 5]),
+            # st_size recorded by a stat() after the file grew / was rotated: differs from the data the ranges define
+            'size_skew': rng.choice([0, 0, 0, -1, 1, -1000, 7, 4096]),
             'kdf': {'name': 'scrypt', 'n': rng.choice([2, 4, 8]), 'r': rng.choice([1, 2]), 'p': 1}}
 
 
@@ -173,6 +178,32 @@ def _quiet():
     sink = io.StringIO()
     with contextlib.redirect_stdout(sink), contextlib.redirect_stderr(sink):
         yield
+
+
+TIME_ZONES = ['PST8', 'JST-9', 'IST-5:30', 'UTC0', 'NST3:30']      # POSIX TZ strings: UTC-8, UTC+9, UTC+5:30, UTC, UTC-3:30
+
+
+@contextlib.contextmanager
+def _tz(name):
+    """run a block with the process in another time zone (no-op for None)"""
+    if not name:
+        yield
+        return
+    old = os.environ.get('TZ')
+    os.environ['TZ'] = name
+    time.tzset()
+    try:
+        yield
+    finally:
+        if old is None:
+            os.environ.pop('TZ', None)
+        else:
+            os.environ['TZ'] = old
+        time.tzset()
+
+
+def _utcnow():
+    return datetime.fromtimestamp(time.time(), timezone.utc)
 
 
 def _repo(backend, concurrent=2):
@@ -214,7 +245,9 @@ def run_dir1(case, wd: Path):
     password = PASSWORD if encrypted else None
     backend = MemBackend()
     keyfile = wd / 'key.json'
-    expected = []        # per snapshot: (location, {path: (bytes, mtime_ns, size)})
+    expected = []        # per snapshot: (location, {path: (bytes, mtime_ns, size)}, note, (utc before, utc after))
+    tzs = list(case.get('tz') or [None, None])
+    restored = []
 
     def state():
         return {str(p): (p.read_bytes(), p.stat().st_mtime_ns, p.stat().st_size, p.stat().st_mode) for p in files}
@@ -226,8 +259,10 @@ def run_dir1(case, wd: Path):
         r2 = _repo(backend, case['concurrent'])
         await r2.unlock(password=password, key=key)
         st = state()
-        s = await r2.snapshot(paths=[src], note=case['note'])
-        expected.append((s.location, st, case['note']))
+        with _tz(tzs[0]):
+            t0 = _utcnow()
+            s = await r2.snapshot(paths=[src], note=case['note'])
+            expected.append((s.location, st, case['note'], (t0, _utcnow())))
         if case['second'] and files:
             p = files[0]
             old = p.read_bytes()
@@ -236,8 +271,19 @@ def run_dir1(case, wd: Path):
             q.write_bytes(rng.randbytes(rng.choice([0, 3, 33])))
             files.append(q)
             st = state()
-            s = await r2.snapshot(paths=[src], note=None)
-            expected.append((s.location, st, None))
+            time.sleep(0.002)
+            with _tz(tzs[1]):
+                t0 = _utcnow()
+                s = await r2.snapshot(paths=[src], note=None)
+                expected.append((s.location, st, None, (t0, _utcnow())))
+            if any(tzs):
+                # the snapshots were taken in different zones: restore must still bring back the latest version
+                r3 = _repo(backend, case['concurrent'])
+                await r3.unlock(password=password, key=key)
+                out = Path(os.path.realpath(wd)) / 'out'
+                out.mkdir()
+                await r3.restore(path=out)
+                restored.append((Path(out, *p.parts[1:]), p.read_bytes()))
         return key
 
     with _quiet():
@@ -249,6 +295,9 @@ def run_dir1(case, wd: Path):
     def bad(what, kind):
         problems.append((what, kind))
 
+    for t, want in restored:
+        if not t.is_file() or t.read_bytes() != want:
+            bad(f'after snapshots taken under TZ={tzs[0]} and TZ={tzs[1]} restore does not bring back the latest version of a file', 'latest_version')
     objects = dict(backend.objects)
     try:
         _read_dir1(case, settings, encrypted, password, objects, key_bytes, expected, bad, obs)
@@ -294,11 +343,12 @@ def _read_dir1(case, settings, encrypted, password, objects, key_bytes, expected
                 bad(str(e)[:160], 'chunk_name')
         elif not name.startswith('snapshots/'):
             bad(f'object outside config / data/ / snapshots/: {name[:60]}', 'stray_object')
-    if sorted(rd.snapshot_names()) != sorted(loc for loc, _, _ in expected):
+    if sorted(rd.snapshot_names()) != sorted(x[0] for x in expected):
         bad('snapshot objects in the store differ from the locations snapshot() reported', 'snapshot_name')
     # ---- every snapshot object
     referenced = set()
-    for loc, st, note in expected:
+    stamps = []
+    for loc, st, note, (t0, t1) in expected:
         if loc not in objects:
             continue
         try:
@@ -325,6 +375,14 @@ def _read_dir1(case, settings, encrypted, password, objects, key_bytes, expected
             bad('snapshot note differs', 'snapshot_object')
         if not isinstance(data['utc_timestamp'], str) or re.fullmatch(r'\d{4}-\d\d-\d\d \d\d:\d\d:\d\d(\.\d+)?', data['utc_timestamp']) is None:
             bad(f'utc_timestamp is not an ISO-like UTC time: {data["utc_timestamp"]!r}', 'snapshot_object')
+        else:
+            ts = datetime.fromisoformat(data['utc_timestamp']).replace(tzinfo=timezone.utc)
+            stamps.append(ts)
+            slack = timedelta(seconds=2)
+            if not (t0 - slack <= ts <= t1 + slack):
+                tzname = (case.get('tz') or [None, None])[len(stamps) - 1]
+                bad(f'utc_timestamp {data["utc_timestamp"]} (TZ={tzname}) is not inside the UTC interval of the snapshot call '
+                    f'[{t0:%Y-%m-%d %H:%M:%S}, {t1:%Y-%m-%d %H:%M:%S}]', 'utc_timestamp')
         hsize = len(rd.keys.hash(b''))
         if any(len(d) != hsize for d in table):
             bad('chunk table entry is not a digest of the configured hash', 'snapshot_object')
@@ -395,6 +453,8 @@ def _read_dir1(case, settings, encrypted, password, objects, key_bytes, expected
             if any(u.strip(b'\0') for u in unused):
                 bad('chunk table entry referenced by no file range', 'snapshot_object')
         obs['locs'].append(['snapshot', snap['name'], snap['tag'], loc])
+    if len(stamps) == 2 and len(expected) == 2 and not stamps[0] < stamps[1]:
+        bad(f'the snapshot taken later carries the earlier utc_timestamp ({stamps[1]} vs {stamps[0]}): a reader takes the older version as the latest', 'utc_timestamp_order')
     # ---- every chunk object is the documented function of a table digest, and vice versa
     want_paths = {}
     for d in referenced:
@@ -533,14 +593,17 @@ def run_dir2(case, layouts, manifests, wd: Path):
             if case['shuffle']:
                 rng.shuffle(refs)
             sec = rng.randint(10 ** 8, 16 * 10 ** 8)
+            st_size = len(blob)
+            if case.get('size_skew') and (j == 0 or rng.random() < 0.5):
+                st_size = max(0, len(blob) + case['size_skew'])
             if case['legacy']:
                 mt = sec + rng.choice([0, 0, 0.5, 0.25, 0.125, 0.875])
-                md = {'st_mode': 0o100644, 'st_uid': 0, 'st_gid': 0, 'st_size': len(blob),
+                md = {'st_mode': 0o100644, 'st_uid': 0, 'st_gid': 0, 'st_size': st_size,
                       'st_atime': float(sec + 1), 'st_mtime': float(mt) if rng.random() < 0.7 else int(mt), 'st_ctime': float(sec)}
                 mtime_ns = int(md['st_mtime'] * 8) * 125_000_000
             else:
                 mtime_ns = sec * 10 ** 9 + rng.randint(0, 10 ** 9 - 1)
-                md = {'st_mode': 0o100644, 'st_uid': 0, 'st_gid': 0, 'st_size': len(blob),
+                md = {'st_mode': 0o100644, 'st_uid': 0, 'st_gid': 0, 'st_size': st_size,
                       'st_atime_ns': mtime_ns + 5, 'st_mtime_ns': mtime_ns, 'st_ctime_ns': mtime_ns + 7}
             entries.append({'path': paths[fi], 'chunks': [{'range': [a, b], 'index': table.index(digests[c - 1]), 'counter': c} for a, b, c in refs],
                             'digest': w.keys.hash(blob), 'metadata': md})
@@ -576,7 +639,8 @@ def run_dir2(case, layouts, manifests, wd: Path):
             continue
         got = t.read_bytes()
         if got != blob:
-            problems.append((f'restored content differs from what the reference writer stored ({len(got)} vs {len(blob)} bytes)', 'content'))
+            problems.append((f'restored content differs from the data the recorded ranges define ({len(got)} vs {len(blob)} bytes'
+                             + (f'; metadata st_size skewed by {case["size_skew"]}' if case.get('size_skew') else '') + ')', 'content'))
         elif t.stat().st_mtime_ns != mtime_ns:
             problems.append((f'modification time not restored ({"pre-1.3 st_mtime" if case["legacy"] else "st_mtime_ns"}): '
                              f'{t.stat().st_mtime_ns} != {mtime_ns}', 'mtime'))
@@ -895,6 +959,7 @@ def do_dir1(rep, ctx, cases, with_model=True):
         enc = case['settings'].get('encryption', {}) is not None
         rep.count('d1_encrypted' if enc else 'd1_unencrypted')
         rep.count('d1_hash=' + case['settings']['hashing']['name'])
+        rep.count('d1_tz=' + ('/'.join(str(z) for z in case['tz']) if case.get('tz') else 'unchanged'))
         if case.get('big'):
             rep.count('d1_file_spanning_read_blocks')
         if enc:
@@ -982,6 +1047,7 @@ def do_dir2(rep, ctx, cases, with_model=True):
         rep.count('d2_legacy_metadata' if case['legacy'] else 'd2_current_metadata')
         rep.count('d2_split=' + case['split'])
         rep.count('d2_json=' + case['style'])
+        rep.count('d2_st_size_skew=%d' % case.get('size_skew', 0))
         rep.count('d2_align=%d' % case['align'])
         rep.sample({'direction': 2, 'config': case['config'], 'files': [f['size'] for f in case['files']], 'chunk_lengths': layouts[i][0]['clens'][:12],
                     'metadata': 'pre-1.3' if case['legacy'] else 'current', 'ranges_written_by': 'Coq model' if manifests[i] else 'direct'}, limit=4)
